@@ -1,1 +1,82 @@
-//! Verification hooks (merge); see `verif/mod.rs`.
+//! Verification hooks (merge), H-MERGE; see `verif/mod.rs`.
+//!
+//! The metadata hand-off channel (`cluster::metadata::merge_channel`) is crate-private. This file
+//! is its public surface for the external model checker: thin owning wrappers that forward to the
+//! production constructor and endpoints (no logic of their own), and `point()`, the yield point the
+//! channel calls between its shared-memory steps. `point()` does nothing unless the calling thread
+//! has installed an explorer with `install_explorer`.
+
+use std::cell::RefCell;
+use std::sync::Arc;
+
+use crate::cluster::metadata::merge_channel as mc;
+
+/// Owning wrapper around the production `merge_channel::Sender`. Dropping it drops the sender.
+pub struct MergeSender<T>(mc::Sender<T>);
+
+/// Owning wrapper around the production `merge_channel::Receiver`. Dropping it drops the receiver.
+pub struct MergeReceiver<T>(mc::Receiver<T>);
+
+/// `merge_channel::SendError` (the receiver is gone), re-typed because the original is crate-private.
+#[derive(Debug, Clone, Copy, PartialEq, Eq)]
+pub struct ReceiverGone;
+
+/// The production constructor `merge_channel::merge_channel()`.
+pub fn merge_channel<T>() -> (MergeSender<T>, MergeReceiver<T>) {
+    let (tx, rx) = mc::merge_channel();
+    (MergeSender(tx), MergeReceiver(rx))
+}
+
+impl<T> MergeSender<T> {
+    /// `Sender::modify`.
+    pub fn modify<F: FnOnce(&mut Option<T>)>(&mut self, f: F) -> Result<(), ReceiverGone> {
+        self.0.modify(f).map_err(|_: mc::SendError| ReceiverGone)
+    }
+}
+
+impl<T> MergeReceiver<T> {
+    /// `Receiver::recv` (the returned future is the production future, one `async` layer up).
+    pub async fn recv(&mut self) -> Option<T> {
+        self.0.recv().await
+    }
+
+    /// `Receiver::try_recv`.
+    pub fn try_recv(&mut self) -> Option<T> {
+        self.0.try_recv_verif()
+    }
+}
+
+/// Callback invoked at every yield point with the point's label; it may block the calling thread.
+pub type Explorer = Arc<dyn Fn(&'static str) + Send + Sync>;
+
+thread_local! {
+    static EXPLORER: RefCell<Option<Explorer>> = const { RefCell::new(None) };
+}
+
+/// Install (or with `None` remove) this thread's explorer. Returns the previous one.
+pub fn install_explorer(e: Option<Explorer>) -> Option<Explorer> {
+    EXPLORER.with(|c| std::mem::replace(&mut *c.borrow_mut(), e))
+}
+
+/// Yield point between two shared-memory steps of the channel. No-op unless an explorer is
+/// installed in the calling thread.
+#[inline]
+pub fn point(label: &'static str) {
+    let e = EXPLORER.with(|c| c.borrow().clone());
+    if let Some(e) = e {
+        e(label)
+    }
+}
+
+/// Labels of the yield points compiled into `merge_channel.rs`, in program order per operation
+/// (lets the harness assert that every one of them was actually reached).
+pub const POINTS: &[&str] = &[
+    "modify:after-receiver-check",
+    "modify:after-unlock",
+    "drop-sender:after-flag",
+    "recv:before-enable",
+    "recv:after-enable",
+    "recv:after-first-take",
+    "recv:after-flag-load",
+    "recv:before-await",
+];
